@@ -210,6 +210,11 @@ let dispatch (op : string) (args : jv list) : jv =
           ("mergers", jlist (fun (((ps, pr), c), t) -> JList [jlist jstr ps; jlist jnum pr; JStr c; JNum t]) ev.ev_mergers);
           ("admixtures", jlist (fun (((ps, pr), c), t) -> JList [jlist jstr ps; jlist jnum pr; JStr c; JNum t]) ev.ev_admixtures)])
         (discrete_events ops (graph_arg g))
+  | "steps", [g] ->
+      let g = graph_arg g in
+      JDict [("in_generations", jnat (steps_in_generations ops g)); ("asdict", jnat (steps_asdict ops g));
+             ("events", jnat (steps_events ops g)); ("migration_matrices", jnat (steps_migmat ops g));
+             ("fromdict", jnat (steps_fromdict ops g)); ("to_ms", jnat (steps_to_ms ops g)); ("size", jnat (gsize ops g))]
   | "in_generations", [g] -> of_res jgraph (in_generations ops (graph_arg g))
   | "rename", [g; names; JList probes] ->
       (match rename_demes ops (namemap_arg names) (graph_arg g) with
